@@ -79,3 +79,26 @@ fn unsubscribe_removes_exactly_target() {
     std::mem::forget(store);
     std::mem::forget(s0);
 }
+
+// shutdown release (clear_subscribers) of one registered subscriber: released once, list emptied, and the release
+// happens inside the critical section of the subscribers mutex, so that a racing unsubscribe() cannot release it again
+#[kani::proof]
+#[kani::unwind(4)]
+fn clear_releases_under_lock() {
+    let store = mk();
+    unsafe {
+        SUBS = Some(&*store.subscribers as *const _);
+    }
+    let s0: Arc<dyn Subscriber<u8, u8> + Send + Sync> = Arc::new(Probe(0));
+    store.subscribers.lock().unwrap().push(s0.clone());
+    store.clear_subscribers();
+    unsafe {
+        assert!(store.subscribers.lock().unwrap().len() == 0, "[O-C09-k-clear-empties C09 C04] clear_subscribers empties the list");
+        assert!(RELEASED[0] == 1 && RELEASED[1] == 0, "[O-C09-k-clear-releases-once C09 C04] clear_subscribers releases the registered subscriber exactly once");
+        assert!(RELEASED_UNDER_LOCK[0] == 1, "[O-C09-k-clear-release-under-lock C09 C04] the shutdown release happens while the subscribers lock is held (atomic with the removal from the list)");
+        assert!(NOTIFIED[0] + NOTIFIED[1] == 0, "[O-C09-k-no-notify C09] releasing never notifies");
+    }
+    kani::cover!(true, "harness reaches its end");
+    std::mem::forget(store);
+    std::mem::forget(s0);
+}
